@@ -29,6 +29,7 @@ var Prop = &engine.Prop{
 	},
 	ShardsQuick: 4, ShardsThorough: 16,
 	WatchdogQuick: 5 * time.Minute, WatchdogThorough: 135 * time.Minute,
+	Setup: func(c *engine.Ctx) { Q = engine.NewQuiescer() },
 	Kinds: []engine.Kind{
 		{Name: "index", Quick: 2400, Thorough: 216000, Fn: indexCase},
 		{Name: "partition", Quick: 400, Thorough: 36000, Fn: partitionCase},
@@ -37,6 +38,7 @@ var Prop = &engine.Prop{
 		{Name: "keylock", Quick: 5000, Thorough: 750000, Fn: keyLockCase},
 		{Name: "semap", Quick: 5000, Thorough: 750000, Fn: semapCase},
 		{Name: "conc-fresh", Quick: 600, Thorough: 40000, Fn: concFreshCase},
+		{Name: "lock-order", Quick: 400, Thorough: 16000, Fn: lockOrderCase},
 	},
 	Floors: map[string]int64{
 		// routing
